@@ -326,9 +326,20 @@ func (e *redisEngine) Extra() map[string]any { return e.stats }
 // that span other clients' commits, read-only transactions that keep the oracle from pruning its
 // conflict history and then let go, commits on other keys (each one runs the prune), and - rarely,
 // it costs a bounded wait - a parked commit pipeline.
-func genSched(r *hlib.Rand) []string {
+func genSched(r *hlib.Rand, tier string) []string {
 	ops := []string{"e.reset"}
 	inTxn := [4]bool{}
+	if r.Chance(30) {
+		// two slow clients share one snapshot (no commit between their begins), a third client
+		// writes both keys; the slow ones commit later, with prunes in between
+		ops = append(ops, fmt.Sprintf("e.begin 0 incr %d", 1+r.Intn(9)), fmt.Sprintf("e.begin 1 %s", hlib.Pick(r, []string{"setnx 9", "incr 4"})),
+			"e.begin 2 incr 1", "e.commit 2", "e.begin 3 setnx 4", "e.commit 3")
+		inTxn[0], inTxn[1] = true, true
+	}
+	if tier == "thorough" && r.Chance(4) {
+		// a command stalled between read and commit while other clients commit > 1024 times
+		ops = append(ops, "e.begin 3 incr 7", "e.begin 2 incr 1", "e.commit 2", "e.others 1100", "e.commit 3")
+	}
 	readers := map[int]bool{}
 	n := 10 + r.Intn(25)
 	for step := 0; step < n; step++ {
@@ -408,7 +419,7 @@ func (e *redisEngine) Gen(r *hlib.Rand, tier string) []string {
 	r = hlib.NewRand(r.U64() ^ seedMix)
 	switch x := r.Intn(100); {
 	case x < 45:
-		return genSched(r)
+		return genSched(r, tier)
 	case x < 48:
 		return genStall(r)
 	}
